@@ -159,6 +159,77 @@ def check(chk):
     lp = [x for x in ast.walk(f.node) if isinstance(x, ast.For)]
     ok = bool(lp) and src(lp[0].iter).replace(" ", "") == "range(1,len(node.values))" and "node.values[0]" in src(f.node)
     chk.ob("TABLE-7", "a boolean expression evaluates all of its operands, in order", ok, f.where(), construct=f.ident, text="bool operands")
+    c = [x for x in ast.walk(f.node) if isinstance(x, ast.Call) and isinstance(x.func, ast.Subscript) and src(x.func.value) == "BOOL_OPERATORS"]
+    accs = [x for x in ast.walk(f.node) if isinstance(x, ast.Assign) and x.value in c]
+    ok = bool(c) and bool(accs) and all(len(x.args) == 2 and src(x.args[0]) == src(a.targets[0]) and src(x.args[1]) != src(a.targets[0])
+                                        for x, a in zip(c, accs))
+    chk.ob("TABLE-7", "boolean operators fold left to right: (result so far, next operand)", ok, f.where(), construct=f.ident,
+           text="operand order boolop")
+    # chained comparisons are refused (evaluating only the first link would differ from Python)
+    f = bpm.methods["_eval_compare"]
+    fcfg = f.cfg()
+    uses = [n for n in fcfg.nodes if n.kind != "branch" and n.kind in ("stmt",) and "node.ops[0]" in n.text(300)]
+    handles_all = any(isinstance(x, ast.For) and "node.ops" in src(x.iter) for x in ast.walk(f.node))
+    ok = handles_all
+    if not handles_all:
+        ok = bool(uses)
+        for n in uses:
+            g = fcfg.guards_at(n.id)
+            ok = ok and (g.get("len(node.ops) > 1") is False or g.get("len(node.ops) == 1") is True or g.get("len(node.ops) != 1") is False)
+    chk.ob("TABLE-7", "a chained comparison is either evaluated link by link or refused, never cut to its first link", ok, f.where(),
+           construct=f.ident, text="chained comparison guard")
+    rs = [x for x in fcfg.nodes if x.kind == "stmt" and isinstance(x.ast, ast.Raise) and fcfg.guards_at(x.id).get("len(node.ops) > 1") is True]
+    chk.ob("TABLE-7", "the refusal of a chained comparison is an error, not a value", handles_all or bool(rs), f.where(), construct=f.ident,
+           text="chained comparison refusal")
+    # tuples: every element, in order
+    f = bpm.methods["_eval_tuple"]
+    loops = [x for x in ast.walk(f.node) if isinstance(x, (ast.For, ast.ListComp, ast.GeneratorExp))]
+    ok = False
+    for lp_ in [x for x in loops if isinstance(x, ast.For)]:
+        if src(lp_.iter) != "node.elts":
+            continue
+        ev = [x for x in ast.walk(lp_) if isinstance(x, ast.Assign) and isinstance(x.value, ast.Call) and call_attr(x.value) == "_eval"
+              and x.value.args and src(x.value.args[0]) == src(lp_.target)]
+        if not ev or not isinstance(ev[0].targets[0], ast.Tuple):
+            continue
+        vname = src(ev[0].targets[0].elts[0])
+        apps = [x for x in ast.walk(lp_) if isinstance(x, ast.Call) and call_attr(x) == "append" and x.args and src(x.args[0]) == vname]
+        if apps:
+            lst = src(apps[0].func.value)
+            rets = [r for r in ast.walk(f.node) if isinstance(r, ast.Return)]
+            ok = bool(rets) and all(isinstance(r.value, ast.Tuple) and src(r.value.elts[0]).replace(" ", "") == "tuple(%s)" % lst for r in rets)
+    chk.ob("TABLE-7", "a tuple expression yields the tuple of its evaluated elements, in order", ok, f.where(), construct=f.ident,
+           text="tuple elements")
+    # subscripts: index / slice forms use the evaluated index expressions
+    f = bpm.methods["_eval_subscript"]
+    fcfg = f.cfg()
+    for r in [x for x in fcfg.nodes if x.kind == "stmt" and isinstance(x.ast, ast.Return) and isinstance(x.ast.value, ast.Tuple)]:
+        v = r.ast.value.elts[0]
+        g = fcfg.guards_at(r.id)
+        if not (isinstance(v, ast.Subscript) and src(v.value) == "value"):
+            chk.ob("TABLE-7", "a subscript result is value[...]", False, f.where(r.ast), construct=f.ident, text="subscript result " + short(v, 40))
+            continue
+        sl = v.slice
+        if isinstance(sl, ast.Slice):
+            def bound_from(name_expr, attr):
+                if name_expr is None:
+                    return False
+                nm = src(name_expr)
+                return any(isinstance(a, ast.Assign) and isinstance(a.targets[0], ast.Tuple) and src(a.targets[0].elts[0]) == nm and
+                           call_attr(a.value) == "_eval" and src(a.value.args[0]) == "node.slice." + attr for a in ast.walk(f.node))
+            ok = bound_from(sl.lower, "lower") and bound_from(sl.upper, "upper") and bound_from(sl.step, "step") and \
+                g.get("isinstance(node.slice, ast.Slice)") is True
+            chk.ob("TABLE-7", "a slice uses the evaluated lower:upper:step of the expression", ok, f.where(r.ast), construct=f.ident,
+                   text="slice bounds " + short(v, 50))
+        elif src(sl) == "node.slice.value":
+            chk.ob("TABLE-7", "a constant index is used as written", g.get("isinstance(node.slice, ast.Constant)") is True, f.where(r.ast),
+                   construct=f.ident, text="constant index")
+        else:
+            nm = src(sl)
+            ok = any(isinstance(a, ast.Assign) and isinstance(a.targets[0], ast.Tuple) and src(a.targets[0].elts[0]) == nm and
+                     call_attr(a.value) == "_eval" and src(a.value.args[0]).startswith("node.slice") for a in ast.walk(f.node))
+            chk.ob("TABLE-7", "a computed index is the evaluated index expression", ok, f.where(r.ast), construct=f.ident,
+                   text="computed index " + nm)
 
     # ------------------------------------------------------------ SIB-4 / FLOW-7
     n_ev = 0
@@ -198,6 +269,42 @@ def check(chk):
             if arg is not None:
                 _flow(chk, f, fcfg, r, arg, subs, acc, "error")
     chk.expect(n_ev >= 10, "C16: evaluators lost (%d)" % n_ev)
+    # failures become the template's default: while subscribing every failure is a TemplateEvalError (carrying the
+    # subscriptions); an except clause in an evaluator never swallows the failure and carries on with a wrong value
+    for mn in sorted(set(methods.values())):
+        f = bpm.methods.get(mn)
+        if f is None:
+            continue
+        fcfg = f.cfg()
+        for h in [x for x in ast.walk(f.node) if isinstance(x, ast.ExceptHandler)]:
+            hn = [n for n in fcfg.nodes if n.kind in ("stmt",) and any(y is n.ast for st in h.body for y in ast.walk(st))]
+            ends = [n for n in hn if isinstance(n.ast, (ast.Raise, ast.Return))]
+            first = [n for n in fcfg.nodes if n.kind == "except" and n.ast is h]
+            ok = bool(ends)
+            if first and ends:
+                ok = fcfg.path_avoiding(first[0].id, [fcfg.exit.id] + [x.id for x in fcfg.nodes if x.kind == "stmt" and x not in hn and
+                                                                      not any(y is x.ast for y in ast.walk(h))],
+                                        [e.id for e in ends], ignore_exc=True) is None
+            chk.ob("SIB-4", "%s: a caught failure is re-raised (as TemplateEvalError while subscribing), never swallowed" % mn, ok,
+                   f.where(h), detail="falling out of the handler continues with a stale / unbound value", construct=f.ident,
+                   text="handler falls through in " + mn)
+        for r in fcfg.nodes_where(lambda n: n.kind == "stmt" and isinstance(n.ast, ast.Raise)):
+            g = fcfg.guards_at(r.id)
+            if "subscribe" not in g:
+                continue
+            is_te = r.ast.exc is not None and "TemplateEvalError" in src(r.ast.exc)
+            ok = is_te if g["subscribe"] is True else not is_te
+            chk.ob("SIB-4", "%s: while subscribing a failure raises TemplateEvalError (so the default is used and the template stays subscribed)" % mn,
+                   ok, f.where(r.ast), detail="subscribe=%s raises %s" % (g["subscribe"], short(r.ast, 50)), construct=f.ident,
+                   text="raise kind under subscribe=%s in %s" % (g["subscribe"], mn))
+    f = bpm.methods["_eval_attribute"]
+    fcfg = f.cfg()
+    for n in fcfg.nodes_where(lambda n: n.kind == "stmt" and isinstance(n.ast, ast.Assign) and isinstance(n.ast.value, ast.Subscript)
+                              and src(n.ast.value.slice) == "node.attr"):
+        g = fcfg.guards_at(n.id)
+        ok = g.get("isinstance(slice_value, dict)") is True and g.get("node.attr in slice_value") is True
+        chk.ob("TABLE-7", "attribute syntax reads a dict entry only for dicts that have the key (otherwise the attribute)", ok, f.where(n.ast),
+               detail="guards %s" % sorted(g.items()), construct=f.ident, text="dict attribute access guard")
     f = bpm.methods["_eval_attribute"]
     ok = src(f.node).count("subscribe_attribute(node.attr)") >= 2
     chk.ob("FLOW-7", "an attribute access subscribes to that attribute (on success and on the missing-attribute path)", ok, f.where(), construct=f.ident,
@@ -309,6 +416,20 @@ def _flow(chk, f, fcfg, node, expr, subs, acc, what):
     names = {x.id for x in ast.walk(expr) if isinstance(x, ast.Name)}
     for sn, var in subs:
         if not fcfg.dominates(sn.id, node.id):
+            # a sub-evaluation inside a loop: its subscriptions must be folded into an accumulator on every path of the
+            # iteration, and the accumulator must reach this result
+            loops = [h for h in fcfg.nodes if h.kind == "loop" and any(x is sn.ast for st in h.ast.body for x in ast.walk(st))]
+            if not loops or not fcfg.path_avoiding(sn.id, [node.id], [], ignore_exc=True):
+                continue
+            head = loops[-1]
+            folded = False
+            for x, adds in acc.items():
+                hits = [an.id for an, v in adds if v == var]
+                if x in names and hits and fcfg.path_avoiding(sn.id, [head.id, node.id], hits, ignore_exc=True) is None:
+                    folded = True
+            chk.ob("FLOW-7", "%s: the subscriptions of every `%s` in the loop reach the %s at line %s" % (f.name, short(sn.ast.value, 40), what, node.lineno),
+                   folded, f.where(node.ast), detail="`%s` of a loop iteration is not accumulated into `%s`" % (var, short(expr, 60)),
+                   construct=f.ident, text="%s of loop dropped from %s in %s" % (var, what, f.name))
             continue
         covered = var in names
         if not covered:
@@ -340,6 +461,14 @@ def battery():
         M("player placeholder waits wrong event", PM, "        return self._machine.events.wait_for_event('player_{}'.format(item))\n\n    def __getitem__", "        return self._machine.events.wait_for_event('player_var_{}'.format(item))\n\n    def __getitem__", "TABLE-8"),
         M("machine var event renamed", "mpf/core/machine_vars.py", "self.machine.events.post('machine_var_' + name,", "self.machine.events.post('machine_variable_' + name,", "TABLE-8"),
         M("no resubscribe", "mpf/core/config_player.py", "        subscription.add_done_callback(\n            partial(self._update_subscription, template, subscription_list, settings, priority, context, key))\n", "", "PAIR-19"),
+        M("bool op failure swallowed", PM, "            except TypeError:\n                raise TemplateEvalError(subscription)\n        return result, subscription", "            except TypeError:\n                pass\n        return result, subscription", "SIB-4"),
+        M("chained comparison cut to its first link", PM, "        if len(node.ops) > 1:\n            raise AssertionError(\"Only single comparisons are supported.\")\n", "", "TABLE-7"),
+        M("tuple element subscriptions dropped", PM, "            values.append(value)\n            subscriptions += subscription\n", "            values.append(value)\n", "FLOW-7"),
+        M("bool op folds (next, result)", PM, "result = BOOL_OPERATORS[type(node.op)](result, value)", "result = BOOL_OPERATORS[type(node.op)](value, result)", "TABLE-7"),
+        M("missing parent asserts while subscribing", PM, "            if subscribe:  # pylint: disable-msg=no-else-raise\n                raise TemplateEvalError(subscription)\n            else:\n                raise AssertionError(", "            if not subscribe:  # pylint: disable-msg=no-else-raise\n                raise TemplateEvalError(subscription)\n            else:\n                raise AssertionError(", "SIB-4"),
+        M("dict attribute read without key test", PM, "if isinstance(slice_value, dict) and node.attr in slice_value:", "if isinstance(slice_value, dict):", "TABLE-7"),
+        M("slice bounds swapped", PM, "return value[lower:upper:step],", "return value[upper:lower:step],", "TABLE-7"),
+        M("slice step ignored", PM, "return value[lower:upper:step],", "return value[lower:upper],", "TABLE-7"),
         # twins
         M("twin: subscription sum reordered", PM, "        return ret_value, left_subscription + right_subscription", "        return ret_value, right_subscription + left_subscription", None),
         M("twin: named functions for bool ops", PM, "BOOL_OPERATORS = {ast.And: lambda a, b: a and b, ast.Or: lambda a, b: a or b}", "BOOL_OPERATORS = {ast.And: lambda x, y: x and y, ast.Or: lambda x, y: x or y}", None),
